@@ -3,8 +3,8 @@ from runner import Job
 
 ASSUME = ['clang-14 -O1 lowering preserves semantics; llsym implements the IR semantics it uses',
           'the caller\'s buffer is an object of exactly len bytes (no sentinel, no padding); any read outside it - including one byte before it - is a violation',
-          'paths are the twelve concrete JSON pointers of harness/c_ondemand.cpp (whole document, keys a/b/"", indices -1,0,1,2, two-step combinations)']
-NP = 12
+          'paths are the fourteen concrete JSON pointers of harness/c_ondemand.cpp (whole document, keys a/b/"", indices -1,0,1,2, two-step combinations)']
+NP = 14
 
 
 def jobs(tier, pid='C11', mode=1):
